@@ -268,7 +268,7 @@ func (g *routerGen) badRegexParam(name string) *Sx {
 	return T("p", X(name), T("re", X(src)))
 }
 
-var bindNames = []string{"x", "y", "z", "a", "b", "id", "n", "route"} // "route" is reserved: the framework overwrites it
+var bindNames = []string{"x", "y", "z", "a", "b", "id", "n", "route", "user-id", "f.n", "k~1"} // "route" is reserved: the framework overwrites it
 
 // one segment's elements; kind: 0 static 1 placeholder 2 regex 3 all
 func (g *routerGen) segment(opt bool, kindBias int) *Sx {
@@ -381,6 +381,13 @@ func (g *routerGen) badRoute(existing []*Sx) *Sx {
 		}
 		if segs[len(segs)-1].Args()[0].Atom == "1" && len(segs) > 1 && rng.Intn(2) == 0 {
 			return T("route", segs[:len(segs)-1]...)
+		}
+		if rng.Intn(4) == 0 && len(segs) > 1 {
+			// the last segment replaced by an optional match-all of another name: where the route ends in a match-all
+			// this is a different match-all at the same position (refused; its short form must not stay behind)
+			alt := append([]*Sx{}, segs[:len(segs)-1]...)
+			alt = append(alt, T("seg", B(true), T("params", T("p", X("zq"), T("lit", X("**"))))))
+			return T("route", alt...)
 		}
 		return r
 	}
@@ -558,6 +565,10 @@ func genRouter(profile string) func(rng *rand.Rand, n int, tier string, emit fun
 			var accepted []*Sx // route ASTs tried so far (some may get rejected)
 			nreg := 1 + rng.Intn(7)
 			staticBias := profile == "C10" && rng.Intn(2) == 0
+			policy := "rebuild"
+			if profile == "C08" && rng.Intn(5) == 0 {
+				policy = "same" // go on with the same instance after a rejection: a failed registration answers nothing
+			}
 			for k := 0; k < nreg; k++ {
 				var r *Sx
 				badP := 12
@@ -570,11 +581,32 @@ func genRouter(profile string) func(rng *rand.Rand, n int, tier string, emit fun
 					r = g.route(staticBias || (profile == "C10" && rng.Intn(3) == 0))
 				}
 				ms := g.methodSpec()
+				if policy == "same" && ms.Tag() == "any" {
+					ms = T("m", A("GET")) // a multi-method registration is the sequence of its single-method ones (C11)
+				}
 				if profile == "C08" && rng.Intn(15) == 0 {
 					ms = T("m", A([]string{"FOO", "", "GETT"}[rng.Intn(3)]))
+					// a comma list through Routes(): every entry must be a known method (Routes is the sequence of its
+					// single-method registrations, C11, so it is not used where the same instance goes on after a failure)
+					if rng.Intn(2) == 0 && policy == "rebuild" {
+						ms = T("list", X([]string{"GET,POST", "PUT, DELETE", "GET,", ",GET", "GET,,POST", "GET POST", "PATCH ,HEAD"}[rng.Intn(7)]))
+					}
 				}
 				ops = append(ops, T("reg", ms, r))
 				accepted = append(accepted, r)
+				if policy == "same" && rng.Intn(2) == 0 && len(r.Args()) > 1 {
+					// straight after it, the same route with its last segment replaced by an optional match-all of
+					// another name (refused where that position already holds a match-all), then requests for the
+					// short and the long form: nothing of a refused registration answers
+					segs := r.Args()
+					alt := append([]*Sx{}, segs[:len(segs)-1]...)
+					alt = append(alt, T("seg", B(true), T("params", T("p", X("zq"), T("lit", X("**"))))))
+					v := T("route", alt...)
+					ops = append(ops, T("reg", ms, v))
+					accepted = append(accepted, v)
+					short := routeText(T("route", segs[:len(segs)-1]...))
+					ops = append(ops, T("req", X("GET"), X(short), T("hdrs")), T("req", X("GET"), X(short+"/a/b"), T("hdrs")))
+				}
 				hp := 0
 				if profile == "C09" || profile == "C10" {
 					hp = 3
@@ -598,7 +630,7 @@ func genRouter(profile string) func(rng *rand.Rand, n int, tier string, emit fun
 						p = g.instance(accepted[rng.Intn(len(accepted))])
 					case r < 7:
 						p = g.perturb(g.instance(accepted[rng.Intn(len(accepted))]))
-					case r < 8 && (profile == "C10" || profile == "C07"):
+					case r < 8 && (profile == "C10" || profile == "C07" || profile == "C02"):
 						p = routeText(accepted[rng.Intn(len(accepted))]) // the route text itself as a path
 					default:
 						p = g.randomPath()
@@ -641,7 +673,7 @@ func genRouter(profile string) func(rng *rand.Rand, n int, tier string, emit fun
 					}
 					hs := g.reqHeaders()
 					ops = append(ops, T("req", X(m), X(p), T("hdrs", hs...)))
-					if (profile == "C10" || profile == "C09") && rng.Intn(4) == 0 {
+					if (profile == "C10" || profile == "C09" || profile == "C07") && rng.Intn(4) == 0 {
 						// the same request again under another spelling of the path, and then without its headers:
 						// an answer must not depend on what an earlier request left behind
 						alt := "/" + p
@@ -658,7 +690,7 @@ func genRouter(profile string) func(rng *rand.Rand, n int, tier string, emit fun
 			for _, src := range g.order {
 				res = append(res, T("r", X(src), g.regexes[src]))
 			}
-			emit(T("in", T("policy", A("rebuild")), T("regexes", res...), T("ops", ops...)))
+			emit(T("in", T("policy", A(policy)), T("regexes", res...), T("ops", ops...)))
 		}
 	}
 }
@@ -704,6 +736,8 @@ func (rr *routerRun) register(idx int, ms *Sx, r *Sx) (ok bool) {
 	var rt *flamego.Route
 	if ms.Tag() == "any" {
 		rt = rr.f.Any(text, h)
+	} else if ms.Tag() == "list" {
+		rt = rr.f.Routes(text, ms.Args()[0].Bytes(), h)
 	} else {
 		rt = rr.f.Route(ms.Args()[0].Atom, text, []flamego.Handler{h})
 	}
